@@ -320,6 +320,85 @@ def shrink(ctx, f):
     return dict(f, prelude=prelude, shrunk_from=seq)
 
 
+def eval_returned_lists(ann):
+    """A scheme's layout is the scheme's, not the caller's: editing the lists its accessors hand out (names.sort(),
+    names += [...], del names[0]) must not change what the same scheme instance answers afterwards."""
+    from maflib import scheme_factory as SF
+    from . import c20
+    want = c20.layout_of(ann, {})
+    sch = SF.find_scheme(version="gdc-1.0.0", annotation=None if ann == "gdc-1.0.0" else ann)
+    where = {"kind": "returned-list", "annotation": ann}
+    if sch is None or want is None:
+        return [dict(where, what="the shipped scheme %s does not resolve" % ann)]
+    fails = []
+    for how in ("column_names", "column_descriptions"):
+        try:
+            got = getattr(sch, how)()
+            if isinstance(got, list):
+                got.append("Foreign_Name")
+                got.reverse()
+                del got[0]
+        except Exception as e:  # noqa
+            fails.append(dict(where, what="%s() failed with %s" % (how, exc_name(e))))
+    names = sch.column_names()
+    if names != want:
+        fails.append(dict(where, what="after a caller edited the lists handed out by the scheme's accessors, the same scheme instance reports another layout (%d names, first %r)" % (
+            len(names), names[:3])))
+    elif [sch.column_index(n) for n in names] != list(range(len(names))) or len(sch) != len(names):
+        fails.append(dict(where, what="after a caller edited the lists handed out by the scheme's accessors, names, indexes and length of the same scheme instance disagree"))
+    return fails
+
+
+def returned_list_cases(ctx, out):
+    for ann in ["gdc-1.0.0", "gdc-1.0.0-public", "gdc-2.0.0-aliquot-merged-masked"]:
+        out.evaluations += 1
+        out.failures += eval_returned_lists(ann)
+        out.distribution["scheme accessors' lists edited by the caller"] += 1
+        out.nontrivial.add(("returned-list", ann))
+
+
+def eval_registry_duplicate(case):
+    """The same rule through the registry (all_schemes(extra_filenames=...)), in a fresh interpreter: a definition whose
+    annotation is already defined - by a shipped definition or by an earlier registration - must be rejected with an
+    error, and the registry must resolve what it resolved before."""
+    from . import c20
+    first, dup, probe = case["first"], case["dup"], case["probe"]
+    ops = ([{"k": "register", "defs": [first]}] if first else []) + [
+        {"k": "find", "version": probe[0], "annotation": probe[1]},
+        {"k": "register", "defs": [dup]},
+        {"k": "find", "version": probe[0], "annotation": probe[1]}]
+    res = c20.run_history({"ops": ops, "late_import": case.get("late_import", False)})
+    where = dict(case, kind="registry-duplicate")
+    if "crash" in res:
+        return [dict(where, what="the registration history crashed the interpreter", got=res["crash"][-300:])]
+    st = res["steps"][-3:]
+    fails = []
+    if st[1].get("exc") is None:
+        fails.append(dict(where, what="a second definition of the already defined annotation %r was accepted by all_schemes(extra_filenames=...) (one of the two silently dropped)" % dup["annotation"]))
+    elif st[0] != st[2]:
+        fails.append(dict(where, what="a rejected registration changed what (%s, %s) resolves to" % tuple(probe)))
+    return fails
+
+
+def registry_duplicate_cases(ctx, out):
+    rng = ctx.rng("c14-registry")
+    shipped = ["gdc-1.0.0-protected", "gdc-1.0.0-public", "gdc-1.0.0"]
+    for k in range(ctx.scale(6, 30)):
+        col = ["My_Column_%d" % k, rng.choice(["NullableStringColumn", "StringColumn", "NullableIntegerColumn"])]
+        if rng.random() < 0.5:
+            ann = rng.choice(shipped)
+            case = {"first": None, "dup": {"version": "gdc-1.0.0", "annotation": ann, "extends": rng.choice([None, "gdc-1.0.0"]) if ann != "gdc-1.0.0" else None,
+                                            "filtered": None, "columns": [col]}, "probe": ["gdc-1.0.0", None if ann == "gdc-1.0.0" else ann]}
+        else:
+            first = {"version": "lab-1.0.%d" % k, "annotation": "lab-1.0.%d-x" % k, "extends": rng.choice([None, "gdc-1.0.0"]), "filtered": None, "columns": [["A_Col", "NullableStringColumn"]]}
+            case = {"first": first, "dup": dict(first, columns=[col], version=rng.choice([first["version"], "other-2.0"])), "probe": [first["version"], first["annotation"]]}
+        case["late_import"] = rng.random() < 0.3
+        out.evaluations += 1
+        out.failures += eval_registry_duplicate(case)
+        out.distribution["registry: second definition of a defined annotation"] += 1
+        out.nontrivial.add(json.dumps(case, sort_keys=True))
+
+
 def run(ctx):
     out = Outcome()
     out.rule = ("random inheritance forests of 1-6 definitions (overrides with RequireNullValue and other types, filters, new columns) with injected defects (unknown base, cycle, unknown type, "
@@ -353,6 +432,8 @@ def run(ctx):
         if len(out.samples) < 3 and len(defs) >= 3 and not defect:
             out.sample({"defs": [{k: d[k] for k in ("annotation", "extends", "filtered")} | {"columns": d["columns"]} for d in defs]})
     shipped_orders(ctx, out, rng)
+    registry_duplicate_cases(ctx, out)
+    returned_list_cases(ctx, out)
     mo = ctx.driver.run(reqs)
     for r, m, i in zip(reqs, mo, impls):
         m = canon(m)
@@ -401,6 +482,20 @@ def shipped_orders(ctx, out, rng):
 
 
 def replay_case(ctx, failure):
+    if failure.get("kind") == "returned-list" and "annotation" in failure:
+        fails = eval_returned_lists(failure["annotation"])
+        print("replay C14: find_scheme(%s); the lists returned by column_names() / column_descriptions() edited in place; the same instance consulted again" % failure["annotation"])
+        for x in fails:
+            print("  oracle: %s" % x["what"])
+        return fails
+    if failure.get("kind") == "registry-duplicate" and "dup" in failure:
+        case = {k: failure[k] for k in ("first", "dup", "probe", "late_import") if k in failure}
+        fails = eval_registry_duplicate(case)
+        print("replay C14: fresh interpreter; %sthen all_schemes(extra_filenames=[definition of the already defined annotation %r])" % (
+            "register %r, " % case["first"]["annotation"] if case.get("first") else "", case["dup"]["annotation"]))
+        for x in fails:
+            print("  oracle: %s" % x["what"])
+        return fails
     """Re-evaluate the stored definitions (in the stored loading orders) on the current implementation; the failures they
     produce now ([] = property holds)."""
     if failure.get("kind") == "order-dependent-shipped":
